@@ -11,6 +11,7 @@ import (
 	"strings"
 	"time"
 
+	"github.com/kardiachain/go-kardia/configs"
 	"github.com/kardiachain/go-kardia/consensus"
 	"github.com/kardiachain/go-kardia/lib/common"
 	"github.com/kardiachain/go-kardia/mainchain/blockchain"
@@ -44,7 +45,8 @@ type CrashPlan struct {
 	// lack the signer whose power changes (restarts in the window where last and current validator sets differ)
 	ManyRounds bool // height 2 is decided in round 6 only (the proposals of rounds 1-5 are not forwarded): a long WAL for
 	// one height, with many timeouts to replay
-	Round2 bool // even heights need two rounds: the round-1 proposal and its parts are not forwarded (nil votes, timeouts
+	ZeroCommitWait bool // timeout_commit = 0: every round start is overdue, the logged new-height timeouts have negative durations
+	Round2         bool // even heights need two rounds: the round-1 proposal and its parts are not forwarded (nil votes, timeouts
 	// and a second proposer in the WAL at the crash points)
 	Late bool // crash at the LAST instant with durable prefix p: just before unit p+1 is written (everything the
 	// node did since unit p - handled and gossiped messages included - is lost with the unsynced buffers)
@@ -109,9 +111,9 @@ func CrashCase(c *core.Case, plan CrashPlan, p int) {
 	defer os.RemoveAll(root)
 	net, err := NewNet(NetOpts{N: plan.N, Powers: powers, Root: root, Node: func(i int) NodeOpts {
 		if i == plan.Victim {
-			return NodeOpts{RecordDB: true, FileWAL: true, Cache: cacheFor(plan.Flush), WALHeadLimit: plan.Rotate, Sched: valChangeSched(plan)}
+			return NodeOpts{RecordDB: true, FileWAL: true, Cache: cacheFor(plan.Flush), WALHeadLimit: plan.Rotate, Sched: valChangeSched(plan), Config: planConfig(plan)}
 		}
-		return NodeOpts{Cache: cacheFor(plan.Flush), Sched: valChangeSched(plan)}
+		return NodeOpts{Cache: cacheFor(plan.Flush), Sched: valChangeSched(plan), Config: planConfig(plan)}
 	}})
 	if err != nil {
 		run.Inconclusive("crash case: network build failed: " + err.Error())
@@ -340,7 +342,7 @@ func CrashCase(c *core.Case, plan CrashPlan, p int) {
 			}()
 			tr := &Trace{}
 			tr.add(Ev{Kind: EvRestart})
-			n2, err := BuildNode(plan.Victim, net.Gen, net.Keys[plan.Victim], curDB, tr, nil, NodeOpts{FileWAL: true, Dir: dir, Cache: cacheFor(plan.Flush), RecordDB: record, WALHeadLimit: plan.Rotate, Sched: valChangeSched(plan)})
+			n2, err := BuildNode(plan.Victim, net.Gen, net.Keys[plan.Victim], curDB, tr, nil, NodeOpts{FileWAL: true, Dir: dir, Cache: cacheFor(plan.Flush), RecordDB: record, WALHeadLimit: plan.Rotate, Sched: valChangeSched(plan), Config: planConfig(plan)})
 			if err != nil {
 				return "build: " + err.Error()
 			}
@@ -605,9 +607,9 @@ func GoldenLen(plan CrashPlan) (total int, start int, err error) {
 	}
 	net, err := NewNet(NetOpts{N: plan.N, Powers: powers, Node: func(i int) NodeOpts {
 		if i == plan.Victim {
-			return NodeOpts{RecordDB: true, FileWAL: true, Cache: cacheFor(plan.Flush), WALHeadLimit: plan.Rotate, Sched: valChangeSched(plan)}
+			return NodeOpts{RecordDB: true, FileWAL: true, Cache: cacheFor(plan.Flush), WALHeadLimit: plan.Rotate, Sched: valChangeSched(plan), Config: planConfig(plan)}
 		}
-		return NodeOpts{Cache: cacheFor(plan.Flush), Sched: valChangeSched(plan)}
+		return NodeOpts{Cache: cacheFor(plan.Flush), Sched: valChangeSched(plan), Config: planConfig(plan)}
 	}})
 	if err != nil {
 		return 0, 0, err
@@ -687,6 +689,14 @@ func votesFirstFilter(net *Net, v int) {
 		_, ok := pv.TwoThirdsMajority()
 		return ok
 	}
+}
+
+// planConfig returns the consensus configuration change of a plan (nil: the simulator's defaults).
+func planConfig(plan CrashPlan) func(*configs.ConsensusConfig) {
+	if !plan.ZeroCommitWait {
+		return nil
+	}
+	return func(c *configs.ConsensusConfig) { c.TimeoutCommit = 0 }
 }
 
 // valChangeSched is the schedule of ValChange plans (same on every node).
